@@ -65,7 +65,9 @@ Read(x, k) ==
           /\ last' = [o |-> x, k |-> k, tag |-> o2.ent[k], ver |-> o2.ver]
     /\ Log([op |-> "read", o |-> x, k |-> k])
 
-\* in-place edit or reassignment of vertices / faces by the user: only the data changes
+\* in-place edit or reassignment of vertices / faces by the user: only the data changes, and only the
+\* data of x: the other object of a copy pair keeps its version and its entries (the replay instantiates
+\* copy_cache ; edit of one side through every buffer-keeping route ; reads on the other side)
 Edit(x) ==
     /\ obj[x].alive
     /\ obj' = [obj EXCEPT ![x].ver = @ + 1]
